@@ -228,7 +228,9 @@ pub struct E2ECase {
     pub conflict: bool,
 }
 
-pub fn gen_e2e(rng: &mut Rng) -> E2ECase {
+/// `collide`: production names drawn from a handful of colliding targets (`dup`, `dup.1`, `dup.2` …) for most glyphs,
+/// so that the de-duplication of post names meets literal `name.N` glyphs before and after the duplicates.
+pub fn gen_e2e(rng: &mut Rng, collide: bool) -> E2ECase {
     use design::*;
     // glyph names: a prefix of a..p, some extras, .notdef in ~half
     let n_base = 3 + rng.below(7);
@@ -333,13 +335,15 @@ pub fn gen_e2e(rng: &mut Rng) -> E2ECase {
     };
 
     // public.postscriptNames (only read when production names are on)
-    let psnames = if rng.chance(1, 3) {
+    let psnames = if collide || rng.chance(1, 3) {
         let mut m: Vec<(String, String)> = vec![];
         let mut cands: Vec<String> = names.iter().filter(|n| *n != ".notdef").cloned().collect();
         rng.shuffle(&mut cands);
-        let targets = ["uni0061", "uni0062", "u1F600", "a", "b", "x-y", "dup", "dup", "dup.1", "e.0", "a b", "A"];
-        for n in cands.iter().take(rng.below(5)) {
-            m.push((n.clone(), rng.pick(&targets).to_string()));
+        let targets: &[&str] = if collide { &["dup", "dup", "dup", "dup.1", "dup.2", "dup.1.1", "d-u-p", "e", "e.1"] }
+            else { &["uni0061", "uni0062", "u1F600", "a", "b", "x-y", "dup", "dup", "dup.1", "e.0", "a b", "A"] };
+        let k = if collide { 3 + rng.below(5) } else { rng.below(5) };
+        for n in cands.iter().take(k) {
+            m.push((n.clone(), rng.pick(targets).to_string()));
         }
         // sometimes also an entry for a glyph that does not exist
         if rng.chance(1, 4) { m.push(("nosuch".into(), "uniFFFF".into())); }
@@ -445,7 +449,7 @@ fn run_e2e_stream(stream: &'static str, args: &Args) {
     let seed = args.seed;
     crate::run_cases(stream, args, move |i| {
         let mut rng = Rng::for_case(seed, stream, i);
-        let c = if stream == "c06probe" { gen_probe(i % N_PROBES) } else { gen_e2e(&mut rng) };
+        let c = if stream == "c06probe" { gen_probe(i % N_PROBES) } else { gen_e2e(&mut rng, i % 5 == 3) };
         let tmp = build::tmpdir(stream);
         let ds = write::write_design(tmp.path(), &c.d);
         let input = if c.route_ds {
